@@ -39,6 +39,9 @@ def gen_for(U, seed, frac, want_forms=None):
                 bound = (i + j) % 3 == 0
                 if bound and sel.get('po') and sel['form'] == 'names':
                     sel = dict(sel, po=['self'] + [n for n in sel['po'] if n != 'self'])
+                elif bound and sel.get('kwo') and sel['form'] == 'names' and not sel.get('po') and (i + j) % 2 == 0:
+                    # a keyword-only selection that names the parameter receiving the instance: binding consumes it
+                    sel = dict(sel, kwo=['self'] + sel['kwo'])
                 take = rnd.random() < frac
                 if take and k % nshards == shard:
                     yield modif.modif_event('mod/%d-%d' % (i, j), ps, bound, **sel)
